@@ -69,6 +69,9 @@ func (f *File) WriteString(s string) (int, error) { return f.h.Write([]byte(s)) 
 func (f *File) Close() error                      { return f.h.Close() }
 func (f *File) Name() string                      { return f.h.Name }
 func (f *File) Sync() error                       { return f.h.Sync() }
+func (f *File) Seek(offset int64, whence int) (int64, error) {
+	return f.h.Seek(offset, whence)
+}
 func (f *File) Truncate(size int64) error         { return f.h.Truncate(size) }
 func (f *File) Fd() uintptr                       { return ^uintptr(0) }
 func (f *File) Chmod(mode FileMode) error         { return nil }
